@@ -62,6 +62,7 @@ type c15Log struct {
 	ID    string
 	At    time.Duration
 	Act   c15Act
+	Seq   int
 }
 
 func classify(ev vaxis.Event) (class, id string) {
@@ -111,7 +112,8 @@ func (wd *c15Widget) handle(ev vaxis.Event, phase string) (vxfw.Command, error) 
 		if k := ev.(vaxis.Key); k.Keycode == c15QuitKey {
 			act = actNone
 			if wd.parent == nil && phase == "capture" {
-				w.log = append(w.log, c15Log{Wid: wd.id, Phase: phase, Class: class, ID: id, At: w.s.Now(), Act: actNone})
+				w.seq++
+				w.log = append(w.log, c15Log{Wid: wd.id, Phase: phase, Class: class, ID: id, At: w.s.Now(), Act: actNone, Seq: w.seq})
 				w.quitReturned++
 				return vxfw.BatchCmd{vxfw.QuitCmd{}, vxfw.ConsumeEventCmd{}}, nil
 			}
@@ -120,7 +122,8 @@ func (wd *c15Widget) handle(ev vaxis.Event, phase string) (vxfw.Command, error) 
 	if w.quitReturned > 0 {
 		w.afterQuit++
 	}
-	w.log = append(w.log, c15Log{Wid: wd.id, Phase: phase, Class: class, ID: id, At: w.s.Now(), Act: act})
+	w.seq++
+	w.log = append(w.log, c15Log{Wid: wd.id, Phase: phase, Class: class, ID: id, At: w.s.Now(), Act: act, Seq: w.seq})
 	switch act {
 	case actConsume:
 		return vxfw.ConsumeEventCmd{}, nil
@@ -146,6 +149,8 @@ func (wd *c15Widget) Draw(ctx vxfw.DrawContext) (vxfw.Surface, error) {
 	if wd.parent == nil {
 		width, height = int(ctx.Max.Width), int(ctx.Max.Height)
 		w.draws = append(w.draws, w.s.Now())
+		w.seq++
+		w.drawSeq = append(w.drawSeq, w.seq)
 	}
 	s := vxfw.NewSurface(uint16(width), uint16(height), wd.self)
 	g := string(rune('A' + wd.id))
@@ -202,6 +207,11 @@ type vxfwWorld struct {
 	postersLeft  int
 	idleAt       time.Duration
 	dirtyAtIdle  int
+	scrDirty     int
+	seq          int
+	drawSeq      []int
+	scrSeq       int
+	idleSeq      int
 }
 
 func init() {
@@ -427,9 +437,22 @@ func (w *vxfwWorld) driver() {
 			break
 		}
 		if sd.Scr {
+			// let a frame in progress finish: simulated time only advances
+			// when every task is blocked
+			simrt.Sleep(time.Millisecond)
 			w.env.quiesce()
 			w.env.term.Scramble(func(n int) int { return w.s.Tape.Draw(n) })
 			w.termScrAt = append(w.termScrAt, w.s.Now())
+			w.seq++
+			w.scrSeq = w.seq
+			w.scrDirty = 0
+			for r := 0; r < w.env.term.Rows; r++ {
+				for c := 0; c < w.env.term.Cols; c++ {
+					if w.env.term.Cell(r, c).Style != (simterm.Style{}) {
+						w.scrDirty++
+					}
+				}
+			}
 			w.res.Fault("display-scramble")
 		}
 		switch sd.Kind {
@@ -473,6 +496,8 @@ func (w *vxfwWorld) driver() {
 	simrt.Sleep(500 * time.Millisecond)
 	w.idleDraws = len(w.draws) - before
 	w.idleAt = w.s.Now()
+	w.seq++
+	w.idleSeq = w.seq
 	w.env.quiesce()
 	t := w.env.term
 	for r := 0; r < t.Rows; r++ {
@@ -502,7 +527,7 @@ type c15Model struct {
 	log      []c15Log
 	pos      int
 	redrawAt []time.Duration // times at which a redraw was requested
-	refresh  []time.Duration
+	refresh  []int           // sequence stamps of applied refresh commands
 	focusChg int
 }
 
@@ -595,7 +620,7 @@ func (m *c15Model) apply(e *c15Log) (consumed bool, mm *c15Mismatch) {
 		return true, nil
 	case actRefresh:
 		m.redrawAt = append(m.redrawAt, e.At)
-		m.refresh = append(m.refresh, e.At)
+		m.refresh = append(m.refresh, e.Seq)
 	case actFocus, actFocusBatch:
 		tgt := m.w.widgets[e.Wid].focusT[e.Phase+"/"+e.Class]
 		if tgt != m.focused {
@@ -857,38 +882,46 @@ func (w *vxfwWorld) Finish(s *simrt.Sched, res *RunResult) {
 		}
 	}
 	// refresh: the frame after a RefreshCmd repaints everything (a scrambled
-	// display is repaired), and only that frame does
-	var lastScr, lastRefresh time.Duration = -1, -1
-	for _, t := range w.termScrAt {
-		lastScr = t
+	// display is repaired), and only that frame does. Everything is ordered
+	// by a global sequence stamp (handler calls, layouts, scrambles).
+	lastScr, lastRefresh := w.scrSeq, -1
+	if len(w.termScrAt) == 0 {
+		lastScr = -1
 	}
-	for _, t := range m.refresh {
-		if t < w.idleAt {
-			lastRefresh = t
+	for _, q := range m.refresh {
+		if q < w.idleSeq {
+			lastRefresh = q
 		}
 	}
-	frameAfter := func(t time.Duration) bool {
-		for _, d := range w.draws {
-			if d >= t && d < w.idleAt {
+	// rendered frames: every layout but the initial one (which Run computes
+	// before its loop and never renders)
+	var frames []int
+	if len(w.drawSeq) > 1 {
+		frames = w.drawSeq[1:]
+	}
+	frameAfter := func(q int) bool {
+		for _, d := range frames {
+			if d > q && d < w.idleSeq {
 				return true
 			}
 		}
 		return false
 	}
-	frameBetween := func(a, b time.Duration) bool {
-		for _, d := range w.draws {
-			if d >= a && d < b {
-				return true
+	// the frame that served the refresh was laid out and flushed before the scramble
+	refreshFrameBefore := func(qr, qs int) bool {
+		for i, d := range frames {
+			if d > qr {
+				return d < qs && w.draws[i+1] < w.termScrAt[len(w.termScrAt)-1]
 			}
 		}
 		return false
 	}
 	switch {
-	case lastScr >= 0 && lastRefresh > lastScr && w.dirtyAtIdle > 0:
-		res.Violate("refresh", "not-repainted", "the display was scrambled at %v, a handler returned RefreshCmd at %v; when input had stopped %d cells still showed the scrambled content\ncase: %s", lastScr, lastRefresh, w.dirtyAtIdle, desc())
+	case lastScr >= 0 && lastRefresh > lastScr && w.dirtyAtIdle > 0 && frameAfter(lastRefresh):
+		res.Violate("refresh", "not-repainted", "the display was scrambled, afterwards a handler returned RefreshCmd and a frame was drawn; when input had stopped %d cells still showed the scrambled content\ncase: %s", w.dirtyAtIdle, desc())
 		return
-	case lastScr >= 0 && lastRefresh >= 0 && lastRefresh < lastScr && w.dirtyAtIdle == 0 && frameAfter(lastScr) && frameBetween(lastRefresh, lastScr-10*time.Millisecond):
-		res.Violate("refresh", "sticky", "a handler returned RefreshCmd at %v (its frame was drawn), the display was scrambled afterwards at %v and only redraws were requested since: the scrambled cells were repainted nevertheless - the refresh took effect more than once\ncase: %s", lastRefresh, lastScr, desc())
+	case lastScr >= 0 && lastRefresh >= 0 && lastRefresh < lastScr && w.scrDirty > 0 && w.dirtyAtIdle == 0 && frameAfter(lastScr) && refreshFrameBefore(lastRefresh, lastScr):
+		res.Violate("refresh", "sticky", "a handler returned RefreshCmd and its frame was drawn; the display was scrambled afterwards (%d cells) and only redraws were requested since: the scrambled cells were repainted nevertheless - the refresh took effect more than once\ncase: %s", w.scrDirty, desc())
 		return
 	}
 	if lastRefresh >= 0 {
